@@ -1725,8 +1725,10 @@ func makePointerArshaler(t reflect.Type) *arshaler {
 	}
 	fncs.marshal = func(enc *jsontext.Encoder, va addressableValue, mo *jsonopts.Struct) error {
 		// Check for cycles.
+		// A pointer to a pointer or to an interface adds no JSON nesting,
+		// so the depth alone never reveals a cycle through such pointers.
 		xe := export.Encoder(enc)
-		if xe.Tokens.Depth() > startDetectingCyclesAfter {
+		if xe.Tokens.Depth() > startDetectingCyclesAfter || t.Elem().Kind() == reflect.Pointer || t.Elem().Kind() == reflect.Interface {
 			if err := visitPointer(&xe.SeenPointers, va.Value); err != nil {
 				return newMarshalErrorBefore(enc, t, err)
 			}
